@@ -32,7 +32,7 @@ man = {
     'setup_cmd': './setup.sh',
     'hooks': {'guard': 'PYIGA_VERIF', 'enable': 'PYIGA_VERIF=1 in the environment of the process importing pyiga (only harness/c20.py sets it)',
               'baseline_off_cmd': 'cd /repo && env -u PYIGA_VERIF /venv/bin/python -m pytest -ra -q -p no:cacheprovider --timeout=900 --continue-on-collection-errors',
-              'source_commits': [], 'add_only': True},
+              'source_commits': ['667b87521adb1c72e1289691d82977fd389baeb5'], 'add_only': True},
     'engines': [{'name': 'lean4+correspondence', 'path': 'lean/ + harness/', 'serves_properties': sorted(CHECKS),
                  'kind_free_text': 'Lean 4 theorems about an executable model (lean/Pyiga), tied to /repo on every run by a differential correspondence check through compiled line-protocol drivers (lean/Drivers) and/or by translators regenerating Lean from the source (translator/); model-free oracles search for a failing input when either breaks'}],
     'checks': checks,
